@@ -124,6 +124,33 @@ def r_pos(A, ctx, scope, rule="R-POS", parts=("prox", "score")):
                             "helper's `positive` parameter (nor branch on it): with "
                             "positive=True the prox is not the constrained prox / can "
                             "return negative coefficients", loc=loc(f, f.node))
+                # ... on every way out: each `return` either depends (through the definitions of the names
+                # it uses) on an expression that mentions self.positive, or sits under a test of it - a
+                # shortcut return for an edge value of another hyper-parameter must not skip the projection
+                assigns = [st for st in ast.walk(f.node) if isinstance(st, (ast.Assign, ast.AugAssign))]
+                for r in [x for x in ast.walk(f.node) if isinstance(x, ast.Return) and x.value is not None]:
+                    need, seen_pos = set(names_in(r.value)), "self.positive" in ast.unparse(r.value)
+                    changed = True
+                    while changed and not seen_pos:
+                        changed = False
+                        for st in assigns:
+                            tg = st.targets if isinstance(st, ast.Assign) else [st.target]
+                            tn = {x.id for t in tg for x in ast.walk(t) if isinstance(x, ast.Name)}
+                            if tn & need:
+                                if "self.positive" in ast.unparse(st.value):
+                                    seen_pos = True
+                                new = names_in(st.value) - need
+                                if new:
+                                    need |= new
+                                    changed = True
+                    guarded = any(isinstance(t, ast.If) and "self.positive" in ast.unparse(t.test)
+                                  and any(x is r for x in ast.walk(t)) for t in ast.walk(f.node))
+                    n += 1
+                    ctx.ob(rule, f"{cls.fq}::{mname}::return::{norm_src(r)[:50]}", seen_pos or guarded,
+                           what=f"{cls.name}.{mname}: `{norm_src(r)[:60]}` leaves the method without `self.positive` having "
+                                "had any influence on the value returned: on that path (a shortcut for an edge value of "
+                                "another hyper-parameter) positive=True is ignored and negative coefficients are "
+                                "returned", loc=loc(f, r))
         if "score" in parts:
             f = cls.methods.get("subdiff_distance")
             if f is not None:
